@@ -21,5 +21,7 @@ func init() {
 		rules.ExposureFlagNonInterference(p, r, "C06-d")
 		rules.ClusterWideCondition(p, r, "C06-e")
 		rules.QueryPathWrites(p, r, "C06-pure")
+		rules.LoopCarriedDefaults(p, r, "C06-loop")
+		rules.SelectorsFullMatchTable(p, r, "C06-f")
 	})
 }
